@@ -45,7 +45,9 @@ func newPMFromDataset(options plugintypes.OperatorOptions) (plugintypes.Operator
 		DFA:                  true,
 	})
 
-	m, _ := memoizeDo(options.Memoizer, data, func() (any, error) { return builder.Build(dataset), nil })
+	// The cache is shared by every WAF of the process, so the key has to identify the phrases
+	// themselves: two WAFs may register different data under the same dataset name.
+	m, _ := memoizeDo(options.Memoizer, "pmds:"+contentKey(dataset), func() (any, error) { return builder.Build(dataset), nil })
 
 	return &pm{matcher: m.(ahocorasick.AhoCorasick), minLen: minPatternLen(dataset)}, nil
 }
